@@ -541,11 +541,11 @@ pub fn cmd_check(prop: &str, tier: Tier, seed: u64, workers: u64) -> i32 {
 
     let mut n_viol = 0;
     let replays = verif_dir().join("replays");
-    for (f, x) in violations.iter().take(5) {
+    for (vi, (f, x)) in violations.iter().take(3).enumerate() {
         let _ = std::fs::create_dir_all(&replays);
         let fp = x.fingerprint();
         let process_class = x.clause == "abort" || x.clause == "hang";
-        let (min, execs) = if process_class { (f.scenario.clone(), 0) } else { crate::shrink::minimise(&f.scenario, &fp, 1500) };
+        let (min, execs) = if process_class { (f.scenario.clone(), 0) } else { crate::shrink::minimise(&f.scenario, &fp, 1500, if vi == 0 { 30 } else { 10 }) };
         // detail of the minimised scenario
         let mut detail = x.detail.clone();
         if !process_class {
@@ -585,8 +585,11 @@ pub fn cmd_check(prop: &str, tier: Tier, seed: u64, workers: u64) -> i32 {
         println!("VIOLATION property={} replay={}", prop, path.display());
         n_viol += 1;
     }
-    if violations.len() > 5 {
-        println!("({} further distinct fingerprints not written out)", violations.len() - 5);
+    if violations.len() > 3 {
+        for (_, x) in violations.iter().skip(3).take(12) {
+            println!("also: {} :: {}", x.fingerprint(), x.detail.chars().take(200).collect::<String>());
+        }
+        println!("({} further distinct fingerprints not written out)", violations.len() - 3);
     }
 
     write_evidence(prop, tier, seed, &stats, n_viol, t0.elapsed().as_secs_f64(), total_units, &known_hit, workers);
